@@ -61,6 +61,16 @@
 #include "version_edit.h"
 #include "write_batch.h"
 
+/* Page faults are very expensive on the verification host and ASan's default 256 MiB
+ * quarantine plus periodic release-to-OS keeps touching fresh pages; a 16 MiB quarantine
+ * still catches a use-after-free within the same and the following cases.  The
+ * environment (ASAN_OPTIONS) can override this. */
+const char *__asan_default_options(void);
+const char *
+__asan_default_options(void) {
+  return "quarantine_size_mb=16:allocator_release_to_os_interval_ms=-1";
+}
+
 #define ALLOC_CAP ((size_t)256 << 20) /* allocation seam: a single request above this is answered NULL */
 
 enum { EP_BLK, EP_BLKI, EP_FOOT, EP_FOOTP, EP_HAND, EP_FILT, EP_SNAP, EP_EDIT, EP_BAT, EP_BATH,
